@@ -215,6 +215,16 @@ reg('rand_pauli',
     lambda nq, a, v: mb.pauli(a, v), branch=lambda a: f"herm={a['is_hermitian']}")
 
 
+reg('get_numpy_rng',
+    lambda r: {'n': r.randint(1, 5)},
+    lambda nq, a, s: nq.random.get_numpy_rng(s).normal(size=a['n']),
+    lambda nq, a, v: None if (isinstance(v, np.ndarray) and v.shape == (a['n'],)) else 'shape')
+
+reg('get_random_rng',
+    lambda r: {'n': r.randint(1, 5)},
+    lambda nq, a, s: [nq.random.get_random_rng(s).getrandbits(200) for _ in range(a['n'])][-1],
+    None)
+
 # ------------------------------------------------------------------------------------------------ other seeded APIs (light)
 def _c_measure(nq, a, s):
     psi = born.make_state(a['kind'], a['n'], a['state_seed'])
@@ -398,6 +408,8 @@ reg('optimize.minimize_adam',
 
 
 def _target_dm(nq, a):
+    if a['target'] == 'random':  # a generic direction: the first bisection points are usually inside the separable set
+        return _fixed_dm(a['d'] * a['d'], a.get('tseed', 0))
     if a['target'] == 'werner':
         return nq.state.Werner(a['d'], a['alpha'])
     return nq.state.Isotropic(a['d'], a['alpha'])
@@ -416,30 +428,51 @@ def _c_cha(nq, a, s, ctx=None):
 
 
 reg('CHABoundaryBagging.solve',
-    lambda r: {'d': 2, 'num_state': r.choice([40, 48]), 'target': r.choice(['werner', 'isotropic']), 'alpha': r.choice([0.9, 1.0]), 'maxiter': r.randint(3, 12), 'reuse': r.random() < 0.5},
+    lambda r: {'d': 2, 'num_state': r.choice([40, 48, 24, 22]), 'target': r.choice(['werner', 'isotropic', 'random']), 'tseed': r.randrange(8), 'alpha': r.choice([0.9, 1.0]), 'maxiter': r.randint(3, 12), 'reuse': r.random() < 0.5},
     _c_cha, None, weight=1, heavy=True, solver=True, branch=lambda a: a['target'])
 
 
+def _boundary_result(ret, return_info):
+    if return_info:
+        beta, info = ret
+        return {'beta': float(beta), 'info': [tuple(float(y) for y in np.asarray(x).reshape(-1)) for x in info]}
+    return {'beta': float(ret)}
+
+
 def _c_charee(nq, a, s, ctx=None):
-    model = nq.entangle.AutodiffCHAREE((a['d'], a['d']), num_state=a['num_state'], distance_kind=a['distance_kind'])
-    beta = model.get_boundary(_target_dm(nq, a), xtol=a['xtol'], converge_tol=1e-8, use_tqdm=False, seed=s)
-    return {'beta': float(beta)}
+    key = ('charee', a['d'], a['num_state'], a['distance_kind'])
+    if a.get('reuse') and ctx is not None and key in ctx:
+        model = ctx[key]  # the model object was used before: its leftover parameters must not matter
+    else:
+        model = nq.entangle.AutodiffCHAREE((a['d'], a['d']), num_state=a['num_state'], distance_kind=a['distance_kind'])
+        if ctx is not None:
+            ctx[key] = model
+    ret = model.get_boundary(_target_dm(nq, a), xtol=a['xtol'], converge_tol=1e-8, use_tqdm=False, return_info=a.get('return_info', False), seed=s)
+    return _boundary_result(ret, a.get('return_info', False))
 
 
 reg('AutodiffCHAREE.get_boundary',
-    lambda r: {'d': 2, 'num_state': r.choice([4, 6]), 'distance_kind': r.choice(['ree', 'gellmann']), 'target': r.choice(['werner', 'isotropic']), 'alpha': 1.0, 'xtol': r.choice([0.1, 0.05])},
-    _c_charee, None, weight=0.6, heavy=True, solver=True, branch=lambda a: a['distance_kind'])
+    lambda r: {'d': 2, 'num_state': r.choice([4, 6]), 'distance_kind': r.choice(['ree', 'gellmann']), 'target': r.choice(['werner', 'isotropic', 'random', 'random', 'random']), 'tseed': r.randrange(8), 'alpha': r.choice([1.0, 0.8]),
+               'xtol': r.choice([0.1, 0.05]), 'reuse': r.random() < 0.7, 'return_info': r.random() < 0.8},
+    _c_charee, None, weight=0.8, heavy=True, solver=True, branch=lambda a: f"{a['distance_kind']},reuse={a['reuse']},info={a['return_info']}")
 
 
 def _c_pureb(nq, a, s, ctx=None):
-    model = nq.entangle.PureBosonicExt(a['d'], a['d'], kext=a['kext'], distance_kind=a['distance_kind'])
-    beta = model.get_boundary(_target_dm(nq, a), xtol=a['xtol'], converge_tol=1e-8, use_tqdm=False, seed=s)
-    return {'beta': float(beta)}
+    key = ('pureb', a['d'], a['kext'], a['distance_kind'])
+    if a.get('reuse') and ctx is not None and key in ctx:
+        model = ctx[key]
+    else:
+        model = nq.entangle.PureBosonicExt(a['d'], a['d'], kext=a['kext'], distance_kind=a['distance_kind'])
+        if ctx is not None:
+            ctx[key] = model
+    ret = model.get_boundary(_target_dm(nq, a), xtol=a['xtol'], converge_tol=1e-8, use_tqdm=False, return_info=a.get('return_info', False), seed=s)
+    return _boundary_result(ret, a.get('return_info', False))
 
 
 reg('PureBosonicExt.get_boundary',
-    lambda r: {'d': 2, 'kext': 3, 'distance_kind': r.choice(['ree', 'gellmann']), 'target': r.choice(['werner', 'isotropic']), 'alpha': 1.0, 'xtol': r.choice([0.1, 0.05])},
-    _c_pureb, None, weight=0.6, heavy=True, solver=True, branch=lambda a: a['distance_kind'])
+    lambda r: {'d': 2, 'kext': 3, 'distance_kind': r.choice(['ree', 'gellmann']), 'target': r.choice(['werner', 'isotropic', 'random', 'random', 'random']), 'tseed': r.randrange(8), 'alpha': r.choice([1.0, 0.8]),
+               'xtol': r.choice([0.1, 0.05]), 'reuse': r.random() < 0.7, 'return_info': r.random() < 0.8},
+    _c_pureb, None, weight=0.8, heavy=True, solver=True, branch=lambda a: f"{a['distance_kind']},reuse={a['reuse']},info={a['return_info']}")
 
 
 def _c_check_ud(nq, a, s, ctx=None):
